@@ -348,8 +348,8 @@ pub struct Node {
     pub tcp: SocketHandle,
 }
 impl Node {
-    fn new(ll: [u8; 8], addrs: &[[u8; 16]], caps: Caps, listen: bool) -> Node {
-        let mut dev = Dev { rx: VecDeque::new(), tx: vec![], medium: Medium::Ieee802154, mtu: 1500, caps: caps.mk() };
+    fn new(ll: [u8; 8], addrs: &[[u8; 16]], caps: Caps, listen: bool, burst: usize) -> Node {
+        let mut dev = Dev { rx: VecDeque::new(), tx: vec![], medium: Medium::Ieee802154, mtu: 1500, caps: caps.mk(), burst: if burst == 0 { None } else { Some(burst) } };
         let mut config = Config::new(HardwareAddress::Ieee802154(Ieee802154Address::Extended(ll)));
         config.random_seed = ll[7] as u64;
         config.pan_id = Some(Ieee802154Pan(0xbeef));
@@ -372,7 +372,7 @@ impl Node {
         );
         ic.bind(icmp::Endpoint::Ident(ICMP_IDENT)).unwrap();
         let icmp = sockets.add(ic);
-        let mut t = tcp::Socket::new(tcp::SocketBuffer::new(vec![0u8; 4096]), tcp::SocketBuffer::new(vec![0u8; 4096]));
+        let mut t = tcp::Socket::new(tcp::SocketBuffer::new(vec![0u8; if burst == 0 { 4096 } else { 16384 }]), tcp::SocketBuffer::new(vec![0u8; 4096]));
         if listen {
             t.listen(TCP_LISTEN).unwrap();
         }
@@ -424,10 +424,12 @@ pub struct LScn {
     pub global: bool,
     pub sizes: Vec<usize>,
     pub caps: Caps,
+    /// DeviceCapabilities::max_burst_size of both devices (0 = None); TCP rx buffers are 16 KiB then
+    pub burst: usize,
 }
 impl LScn {
     fn to_json(&self) -> Value {
-        json!({"part":"b6","kind":self.kind,"global":self.global,"sizes":self.sizes,"caps":self.caps.to_json()})
+        json!({"part":"b6","kind":self.kind,"global":self.global,"sizes":self.sizes,"caps":self.caps.to_json(),"max_burst_size":self.burst})
     }
 }
 
@@ -444,8 +446,8 @@ pub struct LoWorld {
 impl LoWorld {
     pub fn new(s: &LScn) -> LoWorld {
         LoWorld {
-            a: Node::new(MY_LL, &[MY6, MY6G], s.caps, true),
-            b: Node::new(PEER_LL, &[PEER6, PEER6G], s.caps, false),
+            a: Node::new(MY_LL, &[MY6, MY6G], s.caps, true, s.burst),
+            b: Node::new(PEER_LL, &[PEER6, PEER6G], s.caps, false, s.burst),
             now_ms: 1000,
             mon: [Reasm::default(), Reasm::default()],
             st: LStats::default(),
@@ -690,10 +692,15 @@ pub fn run(rep: &mut Report, tier: Tier) {
                 "tcp" => &[500, 999, 1000, 1219, 1220, 1221, 2000],
                 _ => &[500, 777, 1000, 1001, 1200, 1231, 1232],
             };
-            list.push(LScn { kind: kind.into(), global, sizes: size_sequence(dense, big), caps: Caps::DEFAULT });
+            list.push(LScn { kind: kind.into(), global, sizes: size_sequence(dense, big), caps: Caps::DEFAULT, burst: 0 });
+            if kind == "tcp" {
+                for burst in [1usize, 4] {
+                    list.push(LScn { kind: kind.into(), global, sizes: size_sequence(if thorough { 200 } else { 120 }, &[500, 1219, 1220]), caps: Caps::DEFAULT, burst });
+                }
+            }
             if thorough {
                 // tx-only capabilities: emitted checksums must still verify
-                list.push(LScn { kind: kind.into(), global, sizes: size_sequence(200, big), caps: Caps([2; 5]) });
+                list.push(LScn { kind: kind.into(), global, sizes: size_sequence(200, big), caps: Caps([2; 5]), burst: 0 });
             }
         }
     }
@@ -725,7 +732,7 @@ pub fn run(rep: &mut Report, tier: Tier) {
         "b_emitted_6lowpan",
         json!({
             "method": "two real Medium::Ieee802154 interfaces; oracle = independent 802.15.4/FRAG1/FRAGN/IPHC/UDP-NHC decoder + independent checksum verifier on every reassembled datagram emitted by either interface (the peer interface is only a stimulus generator)",
-            "scenarios": list.len(), "kinds": "echo (request + auto reply), udp both directions, udp to closed port (ICMPv6 port unreachable), tcp (SYN, SYN-ACK, data both ways, ACK, FIN)",
+            "scenarios": list.len(), "max_burst_size": "tcp scenarios also with max_burst_size 1 and 4 and 16 KiB receive buffers (the 6LoWPAN emit path does not apply the window clamp; recorded for completeness)", "kinds": "echo (request + auto reply), udp both directions, udp to closed port (ICMPv6 port unreachable), tcp (SYN, SYN-ACK, data both ways, ACK, FIN)",
             "addressing": "link-local (addresses elided in IPHC) and fd00::/64 (addresses in-line)",
             "payload_sizes": format!("0..={} ascending, a few large sizes up to the reassembly limit, then all descending, in ONE world per scenario (stale fragmentation buffer content)", dense),
             "sends": st.sends, "polls": st.polls, "frames_decoded": st.frames, "datagrams_verified": st.datagrams, "per_class": st.counts,
@@ -739,6 +746,7 @@ pub fn replay(r: &Value) -> i32 {
         global: r["global"].as_bool().unwrap_or(false),
         sizes: r["sizes"].as_array().map(|a| a.iter().map(|x| x.as_u64().unwrap_or(0) as usize).collect()).unwrap_or_default(),
         caps: Caps::from_json(&r["caps"]),
+        burst: r["max_burst_size"].as_u64().unwrap_or(0) as usize,
     };
     let st = run_scn(&s, true);
     for (k, v) in &st.counts {
